@@ -42,7 +42,7 @@ var ProdWKeys = []WKSpec{{Label: "wit", Name: "witness.example/w", Cosig: false}
 // LegacyWKeys is a timestamp-free (deterministic) witness.
 var LegacyWKeys = []WKSpec{{Label: "wit", Name: "witness.example/w", Cosig: false}}
 
-var origins = []string{"example.com/log", "example.com/log2", "example.com/log/sub", "example.com", "rekor.example - 123", "лог.example/α", "a", "example.com/log "}
+var origins = []string{"example.com/log", "example.com/log2", "example.com/log/sub", "example.com", "rekor.example - 123", "лог.example/α", "a", "example.com/log ", "example.com/firmware%20log/1", "100%s.example/%d"}
 
 // Uniform draws an (almost exactly) uniform integer in [0,n). rapid's integer
 // generators deliberately favour small values, which distorts percentages and class
@@ -149,7 +149,7 @@ func genExtra(t *rapid.T, p Profile, nlogs, nwk int) ([]string, []ExtraSig) {
 	var ext []string
 	var extra []ExtraSig
 	for i, n := 0, rapid.IntRange(0, 3).Draw(t, "next"); i < n; i++ {
-		ext = append(ext, rapid.SampledFrom([]string{"ext line", "1234", "AAAA", "— not a sig", "x y z", "é"}).Draw(t, "ext"))
+		ext = append(ext, rapid.SampledFrom([]string{"ext line", "1234", "AAAA", "— not a sig", "x y z", "é", "100% of a%2Fb %s %d %v %%", "Timestamp: 1700000000", "{\"json\": [1, 2]}", "tab\there"}).Draw(t, "ext"))
 	}
 	for i, n := 0, rapid.IntRange(0, 3).Draw(t, "nextra"); i < n; i++ {
 		x := ExtraSig{Kind: rapid.SampledFrom([]string{"unknown", "unknown", "otherlog", "duplog", "stalewit", "stalewitlegacy", "forgedwit"}).Draw(t, "xkind"), Before: rapid.Bool().Draw(t, "xbefore")}
@@ -383,6 +383,17 @@ func genOp(t *rapid.T, p Profile, w map[string]int, i, nlogs, nb, nwk int) Op {
 	case "unknownlog":
 		op.Log = -1
 		grow()
+		if rapid.Bool().Draw(t, "idalt") {
+			// the request names another spelling of a configured ID and carries that log's
+			// own, correctly signed checkpoint as a first submission
+			base := rapid.IntRange(0, nlogs-1).Draw(t, "idaltbase")
+			op.IDAlt = &IDAlt{Base: base, Kind: rapid.IntRange(0, 5).Draw(t, "idaltkind")}
+			op.Cp.Origin, op.Cp.Signer = base, base
+			if rapid.Bool().Draw(t, "idaltfirst") {
+				op.Old = SizeSpec{Rel: "abs"}
+				op.Proof = ProofSpec{Kind: "empty"}
+			}
+		}
 	case "smaller":
 		op.Cp.Size = SizeSpec{Rel: "cur", N: -int64(rapid.IntRange(1, 6).Draw(t, "sdelta"))}
 		switch rapid.IntRange(0, 2).Draw(t, "sold") {
@@ -438,6 +449,13 @@ func genOp(t *rapid.T, p Profile, w map[string]int, i, nlogs, nb, nwk int) Op {
 	}
 	if op.Cp.Replay == 0 && op.Cp.Mut == nil && Pct(t, p.NonCanonPct, "noncanon") {
 		op.Cp.NonCanon = rapid.IntRange(1, 3).Draw(t, "noncanonk")
+	}
+	// notes of a chosen total length around buffer-size boundaries (a limit somebody adds
+	// on the way in also applies to what the witness stores, which is a little longer)
+	if op.Cp.Replay == 0 && op.Cp.Mut == nil && (cls == "grow" || cls == "refresh" || cls == "decorated") && Pct(t, 5, "padto") {
+		b := rapid.SampledFrom([]int{4096, 8192, 16384, 16384, 32768, 65536}).Draw(t, "padbound")
+		op.Cp.PadTo = b - 400 + Uniform(t, 421, "padoff")
+		op.Note += "+padded"
 	}
 	return op
 }
